@@ -14,4 +14,6 @@ pub mod c06_ifexpr;
 pub mod c08_scalar;
 pub mod c08_steps;
 pub mod c_scalar;
+pub mod c17_matchers;
+pub mod c19_config;
 pub mod c20_filters;
